@@ -34,6 +34,7 @@ def main() -> int:
     ap.add_argument("--tier", default="quick")
     ap.add_argument("--skip-suite", action="store_true")
     ap.add_argument("--as", dest="as_letter", help="store under /verif/seeded/<ID>_<AS> instead of <ID>_<letter>")
+    ap.add_argument("--check-id", help="run this property's check instead of <ID>'s (the change is in that check's territory)")
     args = ap.parse_args()
     pid, L = args.pid.upper(), args.letter
     src = args.src or f"/tmp/seed/{pid}/_out"
@@ -73,7 +74,7 @@ def main() -> int:
             out["verified"]["demo_exit_without_change"] = rc0
             out["verified"]["demo_output_with_change"] = o1[-600:]
             envk = dict(os.environ, VERIF_REPO=wt)
-            cmd = ["./check", pid, "--tier", args.tier, "--no-evidence"]
+            cmd = ["./check", (args.check_id or pid).upper(), "--tier", args.tier, "--no-evidence"]
             if args.budget:
                 cmd += ["--budget", str(args.budget)]
             t0 = time.time()
